@@ -276,9 +276,21 @@ NAME_POOLS = {
     "distinct": ["a", "b", "c", "d", "e", "f", "g", "h", "i", "j", "k", "l", "m"],
     "repeated": ["a", "b", "c", "a", "b", "a", "c", "b"],
     "affix": ["a", "xa", "ab", "b", "bc", "abc", "c", "ca", "aa"],
-    "special": ["a.b", "(", "+", "a b", "a'", "0", "a1", "10", "a-", "-a", "a|b", "a/b", "x\\y", "é", "..a"],
+    "special": ["a.b", "(", "+", "a b", "a'", "0", "a1", "10", "a-", "-a", "a|b", "a/b", "x\\y", "é", "..a",
+                "a>", ":a", "a/", "=a"],
 }
 SEPS = ["/", "/", "/", "\\", "-", ".", "|", "+", " ", ":"]
+MULTI_SEPS = ["->", "::", "=>", "//", "-|-"]
+
+
+def name_ok(x, sep, strict=True):
+    """strict: no character of the separator occurs in the name (the guard of the _multi theorems);
+    otherwise only the separator itself does not occur (K3 territory for multi-character separators)"""
+    if "*" in x:
+        return False
+    return not (set(sep) & set(x)) if strict else sep not in x
+
+
 SHAPES = ["wide", "deep", "mixed", "path", "star"]
 ATTR_VALUES = [1, 2, 3, 1, 2, "x", "y", None, True, 0, False, "", "xy", "xy", 1000, 1000, 1.0, 2.5, 0.0]
 MAXN = 11
@@ -356,10 +368,10 @@ class Shape:
         return out
 
 
-def gen_tree(rng, shape, pool_name, sep, n, dupsib=False, maxfan=6):
+def gen_tree(rng, shape, pool_name, sep, n, dupsib=False, maxfan=6, strict=True):
     par = gen_parents(rng, shape, n, maxfan)
     depths, par = preorder(par)
-    pool = [x for x in NAME_POOLS[pool_name] if sep not in x and "*" not in x]
+    pool = [x for x in NAME_POOLS[pool_name] if name_ok(x, sep, strict)]
     names = []
     kids_names = {}
     for i in range(n):
@@ -553,7 +565,8 @@ CHILD_KINDS = ("find_children", "find_child", "find_child_by_name")
 def gen_case(rng, kind=None):
     shape = rng.choice(SHAPES)
     pool_name = rng.choice(list(NAME_POOLS))
-    sep = rng.choice(SEPS)
+    sep = rng.choice(MULTI_SEPS) if rng.random() < 0.25 else rng.choice(SEPS)
+    strict = not (len(sep) > 1 and rng.random() < 0.2)     # 5% of all cases: K3 territory
     n = rng.randint(1, MAXN) if rng.random() < 0.15 else rng.randint(4, MAXN)
     kind = kind or rng.choice(KINDS)
     r = rng.random()
@@ -561,7 +574,7 @@ def gen_case(rng, kind=None):
     dupsib = rng.random() < (0.3 if cls == "dag" else 0.05)
     if cls == "binary" and shape in ("star", "wide"):
         shape = "mixed"
-    sh = gen_tree(rng, shape, pool_name, sep, n, dupsib, maxfan=2 if cls == "binary" else 6)
+    sh = gen_tree(rng, shape, pool_name, sep, n, dupsib, maxfan=2 if cls == "binary" else 6, strict=strict)
     attrs = gen_attrs(rng, n)
     if kind in CHILD_KINDS and rng.random() < 0.8:
         inner = [i for i in range(n) if sh.kids[i]]
@@ -570,7 +583,7 @@ def gen_case(rng, kind=None):
         start = 0
     else:
         start = rng.randrange(n)
-    pool = [x for x in NAME_POOLS[pool_name] if sep not in x]
+    pool = [x for x in NAME_POOLS[pool_name] if name_ok(x, sep, strict)]
     q = gen_query(rng, kind, sh, start, sep, pool, attrs, star=(cls != "binary" or BINARY_STAR))
     case = {"sep": sep, "nodes": [[sh.depths[i], sh.names[i], attrs[i]] for i in range(n)],
             "start": start, "q": q, "cls": cls,
@@ -586,7 +599,8 @@ def gen_case(rng, kind=None):
             else:
                 slots.append(rng.choice([0, 1, 1]))
         case["slots"] = slots
-    label = f"{kind}/{shape}/{pool_name}" + ("/dupsib" if dupsib else "") + ("" if cls == "node" else "/" + cls)
+    label = (f"{kind}/{shape}/{pool_name}" + ("/dupsib" if dupsib else "") + ("" if cls == "node" else "/" + cls)
+             + ("" if len(sep) == 1 else "/multisep" if strict else "/multisep-k3"))
     return label, case
 
 
@@ -617,14 +631,14 @@ def generate(prop, rng, tier):
                 for start in range(n):
                     for kind in KINDS:
                         pool_name = rng.choice(["repeated", "affix"])
-                        sep = rng.choice(SEPS)
+                        sep = rng.choice(MULTI_SEPS) if rng.random() < 0.25 else rng.choice(SEPS)
                         par = []
                         stack = []
                         for i, d in enumerate(depths):
                             del stack[d:]
                             par.append(stack[-1] if stack else None)
                             stack.append(i)
-                        pool = [x for x in NAME_POOLS[pool_name] if sep not in x]
+                        pool = [x for x in NAME_POOLS[pool_name] if name_ok(x, sep)]
                         names, used = [], {}
                         for i in range(n):
                             u = used.setdefault(par[i], [])
@@ -737,7 +751,9 @@ def rule(prop):
     return ("one search call (made twice; the tree is snapshotted before/after: links, names, sep, depth) on a tree of 1-11 "
             "nodes; classes Node (75%), BinaryNode with empty left/right slots (15%, all functions, no '*'), DAGNode (children "
             "functions only); shapes wide/deep/mixed/path/star; name pools distinct/repeated/affix/special; separators "
-            "/ \\ - . | + space : (children built with a different own _sep than the root); 5% duplicate sibling names made "
+            "/ \\ - . | + space : and, in 25% of the cases, the multi-character -> :: => // -|- (80% of those with no "
+            "separator character in any name = the guard of the *_multi theorems, 20% only substring-free = K3 territory) "
+            "(children built with a different own _sep than the root); 5% duplicate sibling names made "
             "by renaming (30% for DAG); every start node; 14 query kinds (condition tables returning bools or truthy/falsy "
             "non-bools, names, path suffixes/infixes/near misses/empty, full paths, relative paths over . .. * names, "
             "attributes None/int/bool/str/''/float/large int passed as equal-but-not-identical objects, counts 0-4, "
@@ -800,29 +816,15 @@ def shrink_candidates(prop, case):
 
 def matches_finding(prop, entry, case, obs, flags):
     """K3-C09: lstrip(sep)/rstrip(sep) strip a character set.  Matched only for a multi-character
-    separator, a query string or node name that begins/ends with one of the separator's characters
-    without being a whole separator there, and only when the model reproduces the implementation's
-    output (flags = property false, no disagreement)."""
+    separator in use, a node name that begins or ends with one of the separator's characters, and only
+    when the model reproduces the implementation's output (flags = property false, no disagreement)."""
     if entry.get("id") != "K3-C09":
         return False
     sep = case["sep"]
     if len(sep) < 2 or flags != 2:
         return False
     chars = set(sep)
-    strings = [nm for _, nm, _ in case["nodes"]] + [x for x in case["q"][1:2] if isinstance(x, str)]
-
-    def mangled(s):
-        return s.strip(sep) != _strip_whole(s, sep)
-
-    return any(mangled(s) for s in strings) and any(s and (s[0] in chars or s[-1] in chars) for s in strings)
-
-
-def _strip_whole(s, sep):
-    while sep and s.endswith(sep):
-        s = s[: -len(sep)]
-    while sep and s.startswith(sep):
-        s = s[len(sep):]
-    return s
+    return any(nm and (nm[0] in chars or nm[-1] in chars) for _, nm, _ in case["nodes"])
 
 
 def trusted_base(prop):
@@ -831,9 +833,12 @@ def trusted_base(prop):
 
 
 def partial_clauses(prop):
-    return ["find_path(s), find_full_path, find_relative_path(s): proved for one-character separators (and, for relative "
-            "paths, a separator other than '*' and components that are '*' or contain no '*'); multi-character "
-            "separators are known finding K3 (Example C09_multichar_sep_refuted)",
+    return ["find_path(s), find_full_path, find_relative_path(s): proved for every query string when the separator is one "
+            "character (theorems *_partial), and for separators of ANY positive length (theorems *_multi) under the guard "
+            "that excludes known finding K3: no character of the separator occurs in a name of the tree (names_sfree) and the "
+            "query, after removing whole leading/trailing separators, neither starts nor ends with a separator character "
+            "(clean / query_clean); both halves are necessary (Examples C09_multichar_sep_refuted, C09_multichar_query_refuted); "
+            "relative paths additionally need '*' not in the separator and components that are '*' or contain no '*'",
             "find_full_path 'found iff the full path exists' is proved under sibling-name uniqueness and separator-free, "
             "non-empty names (as designed); an absolute path given to find_relative_paths is not subject to "
             "min_count/max_count and a missing one yields (None,) - prop_C09 accepts any expression of 'no node' there "
@@ -841,7 +846,8 @@ def partial_clauses(prop):
             "accepted blind spots of the correspondence (never generated): names that are not str (Node(1): find_full_path('/1/2') raises ValueError while "
             "find_paths('2') finds the node); conditions that raise; attribute values that are lists/dicts/NaN; attribute names "
             "that are class properties (name, depth, path_name, ...); negative max_depth/min_count/max_count; the empty separator, "
-            "the separator '*', multi-character separators other than the K3 witness; names containing the separator or '*'; "
+            "the separator '*'; multi-character separators with a clean-violating query over separator-free names (K3 variant, "
+            "Example C09_multichar_query_refuted); names containing the separator or '*'; "
             "DAGNode arguments to anything but find_children/find_child/find_child_by_name; trees beyond 11 nodes / fan-out 6 / "
             "depth 8; exception messages and the container type (tuple/list) of multi-results are not compared"]
 
